@@ -167,6 +167,7 @@ def run(ck):
     rule_d(ck, u, eng, P)
     rule_e(ck, u, eng, P)
     rule_f(ck, u, ub, so, P)
+    rule_ext(ck, u, ub, so)
     rule_g(ck)
 
 
@@ -371,6 +372,62 @@ def rule_f(ck, u, ub, so, P):
                     break
         ck.verdict(bad is None, 'C17.f', fn + ':aux', where(fn),
                    'gets into the auxiliary window only, at most the bound, and puts exactly the delivered count from the same place' if bad is None else bad)
+
+
+def rule_ext(ck, u, ub, so):
+    """buffer-extension plumbing: sts_atmost_via_sink / _via_source"""
+    eng = sym.Engine(u, sizeof=so, inline={'byte_buffer_rest'}, other_units=[ub])
+    n = ('v', 'n')
+    for fn in ('sts_atmost_via_sink', 'sts_atmost_via_source'):
+        if u.fn(fn) is None:
+            ck.broken('C17.f', fn, '', 'function missing')
+            continue
+        ck.function(fn)
+        ps = eng.paths(fn)
+        ck.analysed['paths'] += len(ps)
+        bad = None
+        ntr = 0
+        for p in ps:
+            gb = [e for e in p.effects if e.kind == 'icall' and e.name.endswith('getbuffer')]
+            tr = [e for e in p.effects if (e.kind == 'icall' and e.name == 'source.chunk') or (e.kind == 'call' and e.name == 'source_get_chunk')]
+            if not gb:
+                if tr:
+                    bad = 'transfer without an exposed buffer'
+                continue
+            b = gb[0].result
+            bdata, bused, boff = (sym.field_of_value(b, x) for x in ('data', 'used', 'offset'))
+            rest = L(bused) - L(boff)
+            facts = eng.path_facts(p) + [lin.le(L(boff), L(bused))]
+            for e in tr:
+                ntr += 1
+                ptr, cnt = (e.args[1], e.args[2])
+                d = L(ptr) - (L(bdata) + L(boff))
+                if not (d.is_const() and d.c == 0):
+                    bad = 'transfer into %s, the exposed window starts at data+offset' % fmt(ptr)
+                if not eng.entails(facts, L(cnt) - rest):
+                    bad = 'asks for %s octets, the exposed window holds used - offset' % fmt(cnt)
+                if not eng.entails(facts, Lin.const(1) - L(cnt)):
+                    bad = bad or 'may ask for 0 octets'
+                bounded = any(c == ('cmp', '==', n, C(0)) for c in p.cond_terms()) or eng.entails(facts, L(cnt) - L(n))
+                if not bounded:
+                    bad = bad or 'asks for %s octets although at most n were requested' % fmt(cnt)
+                # takes the larger possible count: either the window or n
+                if not (eng.entails(facts, rest - L(cnt)) or eng.entails(facts, L(n) - L(cnt))):
+                    bad = bad or 'moves fewer octets than both the window and the request allow'
+            if fn.endswith('via_source') and tr:
+                r = tr[0].result
+                put = p.calls('sink_put_chunk')
+                neg = any(c == ('cmp', '<', r, C(0)) for c in p.cond_terms())
+                if neg:
+                    if put or strip_cast(p.ret) != r:
+                        bad = bad or 'source error not returned unchanged'
+                else:
+                    if len(put) != 1 or put[0].args[1] != tr[0].args[1] or strip_cast(put[0].args[2]) != r:
+                        bad = bad or 'puts %s, expected exactly the octets just obtained' % ([fmt(a) for a in put[0].args] if put else None)
+            if fn.endswith('via_sink') and tr and strip_cast(p.ret) != tr[0].result:
+                bad = bad or 'does not return the count moved into the sink buffer'
+        ck.verdict(bad is None and ntr >= 2, 'C17.f', fn, cast.where(u.fn(fn)),
+                   'transfers into/out of the exposed window only, 1 <= count <= min(window, n) (window when n == 0), forwards exactly what it got' if bad is None and ntr >= 2 else (bad or 'transfers not found'))
 
 
 def rule_g(ck):
